@@ -579,9 +579,9 @@ pub fn monitor(tier: Tier) -> Monitor {
             "the error may legitimately leave fewer bytes in the sink than were produced (the window is flushed lap-wise)".into(),
         ],
         families: vec![
-            Family { name: "lzma", count: tier.pick(20_000, 600_000), priority: false, enumerated: false, run: fam_lzma },
-            Family { name: "lzma2", count: tier.pick(5_000, 150_000), priority: false, enumerated: false, run: fam_lzma2 },
-            Family { name: "raw_reuse", count: tier.pick(3_000, 60_000), priority: false, enumerated: false, run: fam_raw_reuse },
+            Family { name: "lzma", count: tier.pick(150_000, 3_000_000), priority: false, enumerated: false, run: fam_lzma },
+            Family { name: "lzma2", count: tier.pick(40_000, 800_000), priority: false, enumerated: false, run: fam_lzma2 },
+            Family { name: "raw_reuse", count: tier.pick(30_000, 500_000), priority: false, enumerated: false, run: fam_raw_reuse },
         ],
         label,
         floors,
